@@ -315,6 +315,8 @@ func runHistoryChild() {
 	world.Enable(false)
 	_ = kv.GetStoreManager().CloseStore(storeDir)
 	seam.Restore()
+	// recovery of the images runs through pass-through seams that skip fsync(2)
+	seam.InstallKV(seam.Direct{}, nil)
 
 	if driveErr != nil {
 		// an operation of the history failed although no fault was injected
